@@ -20,6 +20,10 @@ Directives
   //@@ sig                           text inserted between signature and body
   //@@ loop K [GHOST]                text inserted before the body of the K-th loop;
                                      GHOST names the ghost iterator of a `for`
+  //@@ loopat /REGEX/ [GHOST]        (additive, unit odsxml) like `loop`, but the loop is addressed by text instead of by index: REGEX must
+                                     match exactly once in the fn text and selects the first loop (source order) that starts at or after
+                                     the start of the match -- so that removing another loop does not shift this one's invariants.
+                                     `loopat?`: if REGEX does not match (the loop was removed) the text is simply not inserted.
   //@@ r6 K                          desugar for-loop K (rewrite R6)
   //@@ before /REGEX/[#KofN]         text inserted before the unique match in the fn text (or the K-th of exactly N matches)
   //@@ after /REGEX/                 text inserted after the unique match
@@ -408,6 +412,24 @@ def render_fn(fs, out, unit, log):
                     raise LostAnchor(f"fn {fs.path}: loop {k} is not a for loop")
                 ins(c(lp["expr"][0]), a[1] + ": ", {"type": "annot", "fn": flabel, "unit": unit, "what": "ghost-iter"})
             ins(c(lp["body_start"]), "\n" + ptxt, origin, prio=1)
+        elif kind in ("loopat", "loopat?"):
+            m = re.match(r"/(.+)/\s*(\w*)\s*$", arg)
+            if not m:
+                raise SystemExit(f"template line {tline}: bad loopat {arg}")
+            ms = list(re.compile(m.group(1), re.S).finditer(text, body_s, body_e))
+            if kind == "loopat?" and len(ms) == 0:
+                continue
+            if len(ms) != 1:
+                raise LostAnchor(f"fn {fs.path}: loopat /{m.group(1)}/ matches {len(ms)} times (need exactly 1)")
+            cand = [lp for lp in loops if c(lp["start"]) >= ms[0].start()]
+            if not cand:
+                raise LostAnchor(f"fn {fs.path}: loopat /{m.group(1)}/: no loop at or after the match")
+            lp = min(cand, key=lambda l: l["start"])
+            if m.group(2):
+                if lp["kind"] != "for":
+                    raise LostAnchor(f"fn {fs.path}: loopat /{m.group(1)}/ is not a for loop")
+                ins(c(lp["expr"][0]), m.group(2) + ": ", {"type": "annot", "fn": flabel, "unit": unit, "what": "ghost-iter"})
+            ins(c(lp["body_start"]), "\n" + ptxt, origin, prio=1)
         elif kind == "r6":
             k = int(arg.split()[0])
             if k >= len(loops) or loops[k]["kind"] != "for":
@@ -605,8 +627,22 @@ def build(unit_dir, out_path):
     tpl = os.path.join(unit_dir, "unit.rs")
     unit_opts, nodes = parse_template(tpl)
     out = Out()
+    tpl_text = open(tpl).read()
+    for nd in nodes:
+        pass
+    # R5: module-level consts of the same source file that an extracted fn refers to are extracted too (verbatim), unless the
+    # template already provides an item of that name (`//@@ item ... const X`, or `const X` / `static X` in template text)
+    provided = set(re.findall(r"\b(?:const|static)\s+([A-Z][A-Z0-9_]*)\b", tpl_text))
+    for inc in re.findall(r"//@@ include (\S+)", tpl_text):
+        try:
+            provided |= set(re.findall(r"\b(?:const|static)\s+([A-Z][A-Z0-9_]*)\b", open(os.path.join(VERIF, "units", inc)).read()))
+        except OSError:
+            pass
+    provided |= set(re.findall(r"//@@ item \S+ (?:const|static) \"?([A-Za-z_][A-Za-z0-9_]*)", tpl_text))
     log = {"unit": unit, "props": unit_opts.get("props", "").split(","), "rewrites": [], "functions": [], "trusted": [], "items": []}
     cur_props = None
+    impl_open_at = None
+    auto_consts = []
     for nd in nodes:
         k = nd[0]
         if k == "text":
@@ -658,11 +694,32 @@ def build(unit_dir, out_path):
             rec = find_item(relfile, "impl", path, int(o.get("nth", 0))) if not path.startswith("trait ") else find_item(relfile, "trait", path, 0)
             src = src_bytes(relfile)
             t = src[rec["item_start"] : rec["header_end"]].decode("utf-8")
+            impl_open_at = len(out.segs)
             out.add(t + "{\n", {"type": "src", "file": relfile, "fn": path, "unit": unit, "src_byte": rec["item_start"], "item": True})
         elif k == "endimpl":
+            impl_open_at = None
             out.add("}\n", {"type": "glue"})
         elif k == "fn":
-            render_fn(nd[1], out, unit, log)
+            fs = nd[1]
+            try:
+                rec0 = find_item(fs.relfile, "fn", fs.path, int(fs.opts.get("nth", 0)))
+                ftxt = src_bytes(fs.relfile)[rec0["item_start"]:rec0["end"]].decode("utf-8")
+                for cr in rsx(fs.relfile):
+                    if cr["kind"] in ("const", "static") and "::" not in cr["path"] and cr["path"] not in provided \
+                            and re.search(r"(?<![\w:])" + re.escape(cr["path"]) + r"\b", ftxt) and not fs.opts.get("external_body"):
+                        ctxt = src_bytes(fs.relfile)[cr["item_start"]:cr["end"]].decode("utf-8")
+                        seg = (ctxt + "\n", {"type": "src", "file": fs.relfile, "fn": cr["path"], "unit": unit, "src_byte": cr["item_start"], "item": True, "rule": "R5"})
+                        auto_consts.append(seg)  # emitted at crate level in a verus! block of their own (end of file)
+                        provided.add(cr["path"])
+                        log["items"].append({"file": fs.relfile, "item": cr["path"], "kind": cr["kind"], "auto": "R5", "sha256": hashlib.sha256(ctxt.encode()).hexdigest()})
+            except LostAnchor:
+                pass
+            render_fn(fs, out, unit, log)
+    if auto_consts:
+        out.add("\nverus! {\n", {"type": "glue"})
+        for seg in auto_consts:
+            out.segs.append(seg)
+        out.add("}\n", {"type": "glue"})
     text, segmap = out.render()
     # vacuity canary: must FAIL
     canary = "\nverus! { proof fn __verif_canary() ensures false { } }\n"
